@@ -108,6 +108,8 @@ func buildFlowApp(c flowCase, log *[]string, raised map[string]interface{}) *cli
 			cmd.Action = mk("ACT")
 			return
 		}
+		// the commands above the addressed one have Actions of their own: none of them may run
+		cmd.Action = func() { *log = append(*log, fmt.Sprintf("ANCESTOR-ACTION%d", lvl)) }
 		cmd.Command(fmt.Sprintf("c%d", lvl+1), "", func(sc *cli.Cmd) { build(sc, lvl+1) })
 	}
 	build(app.Cmd, 0)
@@ -183,6 +185,9 @@ func exitCodeOf(idx int) int {
 	if idx == 2 {
 		return -3
 	}
+	if idx == 3 {
+		return 300 // more than a process status can hold: the exit function still gets 300
+	}
 	return 10 + idx
 }
 
@@ -192,6 +197,9 @@ func hookOfCode(code int) int {
 	}
 	if code == -3 {
 		return 2
+	}
+	if code == 300 {
+		return 3
 	}
 	return code - 10
 }
@@ -210,7 +218,11 @@ func runFlow(c flowCase) (r flowResult) {
 	r.Log, r.Exits = []string{}, []string{}
 	restoreS := cli.VerifSetStreams(ioutil.Discard, ioutil.Discard)
 	restoreE := cli.VerifSetExiter(func(code int) {
-		r.Exits = append(r.Exits, names[hookOfCode(code)])
+		if h := hookOfCode(code); h >= 0 && h < len(names) {
+			r.Exits = append(r.Exits, names[h])
+		} else {
+			r.Exits = append(r.Exits, fmt.Sprintf("foreign status %d", code))
+		}
 		panic(exitSentinel{code})
 	})
 	defer restoreS()
@@ -224,7 +236,11 @@ func runFlow(c flowCase) (r flowResult) {
 			case nil:
 				r.Fin = "returned"
 			case exitSentinel:
-				r.Fin, r.By = "exited", names[hookOfCode(x.code)]
+				if h := hookOfCode(x.code); h >= 0 && h < len(names) {
+					r.Fin, r.By = "exited", names[h]
+				} else {
+					r.Fin, r.By = "exited", fmt.Sprintf("foreign status %d", x.code)
+				}
 			case *hookPanic:
 				r.Fin, r.By = "panic", x.by
 				r.Same = raised[x.by] == x
